@@ -4,7 +4,7 @@ from ..core import hx, lst
 from ..ref import L, to32, le
 
 REQUIRED = ['l-1', 'l', 'l+1', 'kl', 'wide-max', 'wide-kl', 'batch0', 'batch1', 'batchN', 'canon-accept',
-            'canon-reject', 'mont-final-sub', 'from-int', 'hash', 'sum-empty', 'near-l', 'words', 'sum-carry']
+            'canon-reject', 'mont-final-sub', 'from-int', 'hash', 'sum-empty', 'near-l', 'words', 'sum-carry', 'field-traits']
 
 
 def sc(v):
@@ -72,8 +72,12 @@ def gen(ctx, size):
         ctx.add('sc.fromhash', hx(m[:k]), hx(m[k:]), expect=E(h), cls='hash')
     # directed: every unary operator on every corner value, every binary operator on a core corner matrix
     core_vals = [0, 1, 2, L - 1, L - 2, (L - 1) // 2, (L + 1) // 2, (1 << 252) - 1, (1 << 252), (2**256 - 1) % L, (1 << 128)]
+    from .c17 import field_ops_expect
     for c, v in vals._SCORNERS + vals._DIGITS:
         v %= L
+        # the same arithmetic through the ff::Field / PrimeField trait methods (their own code paths in each backend)
+        w_ = rng.choice([v, 0, 1, L - 1, rng.randrange(L)])
+        ctx.add('gp.field_ops', sc(v), sc(w_), expect=field_ops_expect(v, w_), cls=[c, 'field-traits'])
         ctx.add('sc.neg', sc(v), expect=E(-v), cls=c)
         ctx.add('sc.negref', sc(v), expect=E(-v), cls=c)
         ctx.add('sc.mul', sc(v), sc(v), expect=E(v * v), cls=c)
